@@ -13,7 +13,7 @@ import (
 )
 
 func init() {
-	register("C10", "Structural clauses that keep the pruning shortcuts of the filtered walk unobservable, decided on all paths of filterFS.Walk's callback: every pattern-based SkipDir exit is unreachable unless the entry is a directory, the matching prefix-only flag is set and the matcher's verdict is the pruning one; every path-containment prefix test is separator-terminated; match infos of the include and exclude matcher are never crossed; the user callback is unreachable for an entry a matcher rejected, is preceded by the map function on the same stat when one is set, and is unreachable in the iteration where the map function said exclude/skip; lazily emitted ancestors are marked before they are reported and not reported twice. The wildcard test that allows text-level pruning looks for '*', '?' and '['. Nothing - no pending ancestor either - is reported before the map function was asked about the entry that causes the reports. The literal-prefix scan that keeps an unselected directory open looks only at positive patterns in the include block and only at exceptions ('!') in the exclude block. Does not decide equivalence with the reference filter for all pattern lists, the flag computation, or patternmatcher itself.", runC10)
+	register("C10", "Structural clauses that keep the pruning shortcuts of the filtered walk unobservable, decided on all paths of filterFS.Walk's callback: every pattern-based SkipDir exit is unreachable unless the entry is a directory, the matching prefix-only flag is set and the matcher's verdict is the pruning one; every path-containment prefix test is separator-terminated; match infos of the include and exclude matcher are never crossed; the user callback is unreachable for an entry a matcher rejected, is preceded by the map function on the same stat when one is set, and is unreachable in the iteration where the map function said exclude/skip; lazily emitted ancestors are marked before they are reported and not reported twice. The wildcard test that allows text-level pruning looks for '*', '?' and '['. Nothing - no pending ancestor either - is reported before the map function was asked about the entry that causes the reports. The literal-prefix scan that keeps an unselected directory open looks only at positive patterns in the include block and only at exceptions ('!') in the exclude block. A matcher is built only from a non-empty pattern list. Does not decide equivalence with the reference filter for all pattern lists, the flag computation, or patternmatcher itself.", runC10)
 }
 
 func runC10(c *Ctx) {
@@ -32,6 +32,55 @@ func runC10(c *Ctx) {
 	r10_13(c, "R10.13")
 	r10_14(c, "R10.14")
 	r10_15(c, "R10.15")
+	r10_16(c, "R10.16")
+}
+
+// R10.16: no patterns means no matcher.
+//
+// A matcher built from an empty list matches nothing: as an include matcher
+// it hides the whole tree. "No include patterns" reaches NewFilterFS as nil
+// or as an empty slice (a decoded option, a filtered list, FollowLinks'
+// result for an empty request): a matcher is built only when the list has
+// elements, not when it merely is not nil.
+func r10_16(c *Ctx, rule string) {
+	c.R.Rule(rule, "NewFilterFS: patternmatcher.New is unreachable when the list it is given is empty (each construction is guarded by a test of the list's length, not of its nil-ness)")
+	nf := c.Fn(rule, "fsutil.NewFilterFS")
+	if nf == nil {
+		return
+	}
+	x := c.explorer(nf)
+	n := 0
+	for _, call := range c.P.CallsTo(nf, "github.com/moby/patternmatcher.New") {
+		cl, ok := call.(*ssa.Call)
+		if !ok || len(cl.Call.Args) == 0 {
+			continue
+		}
+		n++
+		arg := cl.Call.Args[0]
+		same := func(v ssa.Value) bool {
+			return eng.SameValue(eng.Canon(v), eng.Canon(arg)) || x.StructKeyAtEntry(v) == x.StructKeyAtEntry(arg)
+		}
+		con := fmt.Sprintf("%s/matcher#%d/not-for-empty-list", c.name(nf), n)
+		pins := c.lenPins(nf, x, true, same)
+		if len(pins) == 0 {
+			nilTested := false
+			eng.Instrs(nf, func(in ssa.Instruction) {
+				if b, isB := in.(*ssa.BinOp); isB && (b.Op == token.EQL || b.Op == token.NEQ) {
+					if k, isK := b.Y.(*ssa.Const); isK && k.IsNil() && same(b.X) {
+						nilTested = true
+					}
+				}
+			})
+			if nilTested {
+				c.R.Fail(rule, con, c.pos(cl), "the list this matcher is built from is tested for nil only, not for being empty: an empty non-nil list (a decoded option, FollowLinks' result for an empty request) yields a matcher without patterns, which as an include matcher hides the whole tree")
+			} else {
+				c.R.OK(rule, con, c.pos(cl), "no emptiness test of the list of a shape this rule interprets: not decided")
+			}
+			continue
+		}
+		c.ObUnreachable(rule, con, nf, pins, func(in ssa.Instruction) bool { return in == ssa.Instruction(cl) }, "building the matcher", "its pattern list is empty")
+	}
+	c.R.Floor(rule, "pattern matcher constructions in NewFilterFS", n, 2)
 }
 
 // R10.14: every entry is put to every configured matcher.
